@@ -17,10 +17,14 @@ fn main() {
     };
     install_panic_hook();
     match args[1].as_str() {
+        "C01" => props::c01::run(tier),
+        "C03" => props::c03::run(tier),
+        "C04" => props::c04::run(tier),
         "C12" => props::c12::run(tier),
         "C13" => props::c13::run(tier),
         "C14" => props::c14::run(tier),
         "C15" => props::c15::run(tier),
+        "C16" => props::c16::run(tier),
         other => {
             eprintln!("unknown property {other}");
             std::process::exit(3);
